@@ -48,14 +48,23 @@ def large_grammar_mc(n=12, seed=0):
     d = core.scratch('gfile')
     jobs = []
     for k in range(n):
-        W = []
-        for t in range(3):
-            g = rng.randint(1, 3)
-            W.append(sorted(rng.sample(range(1, 5), g), reverse=True))
-        S = []
-        for sidx in range(rng.randint(1, 2)):
-            S.append({'t': [rng.randint(1, 3) for _ in range(rng.randint(2, 4))], 'b': rng.randint(1, 2)})
-        S.sort(key=lambda x: -x['b'])
+        while True:
+            W = []
+            for t in range(3):
+                g = rng.randint(1, 3)
+                W.append(sorted(rng.sample(range(1, 5), g), reverse=True))
+            S = []
+            for sidx in range(rng.randint(1, 2)):
+                S.append({'t': [rng.randint(1, 3) for _ in range(rng.randint(2, 4))], 'b': rng.randint(1, 2)})
+            S.sort(key=lambda x: -x['b'])
+            nodes = 0
+            for st in S:
+                k_ = 1
+                for t in st['t']:
+                    k_ *= len(W[t - 1])
+                nodes += k_
+            if 12 <= nodes <= 54:         # every cut point x every cycle x every tie choice is explored: keep the grammar small enough
+                break
         fn = os.path.join(d, 'g%d.json' % k)
         with open(fn, 'w') as f:
             _json.dump({'W': W, 'S': S}, f)
@@ -66,10 +75,12 @@ def large_grammar_mc(n=12, seed=0):
                         workers=8, timeout=1500, env={'G_FILE': fn})
     with ThreadPoolExecutor(2) as ex:
         res = list(ex.map(run, jobs))
+    unfinished = [r for r in res if r.rc == 124]
+    res = [r for r in res if r.rc != 124]
     bad = [r for r in res if not r.ok]
     if bad:
         raise core.ModelViolation('PTQueue on a larger grammar', bad[0])
-    return {'cfg': 'MC_PTQueue_file.cfg', 'grammars': n, 'states': sum(r.distinct for r in res), 'transitions': sum(r.generated for r in res)}
+    return {'cfg': 'MC_PTQueue_file.cfg', 'grammars': len(res), 'not_finished_in_time': len(unfinished), 'states': sum(r.distinct for r in res), 'transitions': sum(r.generated for r in res)}
 
 
 def second_run(jobs):
